@@ -36,6 +36,10 @@ type Cmd struct {
 	// statement order): what a reader of the collection sees, whatever form the write took
 	// (replacement, $set / $unset, find-and-replace, delete + insert, ...).
 	Post []bson.D
+	// Exec is the position of the command in the order of EXECUTION (1, 2, ...; 0 = not
+	// executed). Seq is the order of arrival: a command that is delayed or gated by a plan
+	// executes after commands that arrived later.
+	Exec int
 }
 
 // Key is "name coll".
@@ -75,6 +79,7 @@ type Server struct {
 	open   int // data commands being executed / gated right now
 
 	standInPanics int
+	execs         int // commands executed so far (Cmd.Exec)
 }
 
 // New starts a server on a loopback port.
@@ -712,8 +717,12 @@ func (s *Server) serve(c net.Conn, id int) {
 					}
 				}()
 				reply = s.exec(cmd)
-				if cmd.Post != nil && cmd.Seq < len(s.Log) {
-					s.Log[cmd.Seq].Post = cmd.Post
+				s.execs++
+				if cmd.Seq < len(s.Log) {
+					s.Log[cmd.Seq].Exec = s.execs
+					if cmd.Post != nil {
+						s.Log[cmd.Seq].Post = cmd.Post
+					}
 				}
 			}()
 		}
